@@ -23,7 +23,7 @@ RULE = ("for EVERY spec of the op table (all public differentiable entry points;
         "Non-trivial: >=1 direction judged; distinct = (function, spelling, option keys, operand ndims/layout/dtype) signature.")
 ASSUMPTIONS = ["NumPy longdouble evaluation of the namesake / documented closed form is the reference", "domain predicates keep operands away "
                "from poles and kinks (conventions at kinks are checked separately and exactly)"]
-TIERS = {"quick": {"per_spec": 24, "cases": 0}, "thorough": {"per_spec": 900, "cases": 0}}
+TIERS = {"quick": {"per_spec": 60, "cases": 0}, "thorough": {"per_spec": 900, "cases": 0}}
 FLOORS = {"quick": {"fd_ok": 6000, "gradinv_checks": 3000, "kink_checks": 12}, "thorough": {"fd_ok": 200000, "gradinv_checks": 100000, "kink_checks": 12}}
 SKIP_BUDGET = {"fd": ("fd_skipped", "fd_dirs", 0.1)}
 
@@ -78,15 +78,46 @@ def _gen_for(b, fn):
     raise KeyError(fn)
 
 
-def gen_single(rng, fn, force_empty=False):
+def gen_setitem(rng):
+    """u -> t = u*1.5 ; t[index] = value (tensor / array / scalar; every index kind incl. repeated integer indices of any integer
+    dtype and boolean masks) ; t.backward(dense cotangent): gradients of u (old contents) and of the value are judged."""
+    from mgverif.gen import inplace as GI
+    for _ in range(40):
+        b = B.Builder(rng)
+        shape = B.rand_shape(rng, 3, 4, 1)
+        u = b.leaf(shape)
+        t = b.call("multiply", [B.R(u), 1.5], sp="op", prefix="t")
+        if t is None or not GI.s_setitem(b, t, adv_prob=0.6):
+            continue
+        seed = enc_arr(B.rand_values(rng, shape, 0.3, 1.5))
+        b.prog.append({"k": "backward", "tgt": t, "seed": seed})
+        return {"kind": "op", "fn": "setitem", "prog": b.prog, "L": t, "dtype": "float64", "cseed": rng.randrange(1 << 30)}
+    return None
+
+
+STRESS = {  # large-magnitude operands at which the function is perfectly well conditioned (a naive backward formula overflows)
+    "logaddexp": (300.0, 900.0), "logaddexp2": (300.0, 900.0), "softmax": (100.0, 600.0), "logsoftmax": (100.0, 600.0),
+    "softmax_crossentropy": (100.0, 600.0), "sigmoid": (20.0, 40.0), "tanh": (15.0, 30.0), "nnet_tanh": (15.0, 30.0), "arctan": (1e2, 5e3),
+    "arcsinh": (1e2, 5e3), "soft_sign": (1e2, 5e3), "log1p": (1e2, 5e3), "log": (1e2, 5e3), "sqrt": (1e2, 5e3), "cbrt": (1e2, 5e3),
+    "reciprocal": (1e2, 5e3), "arccot": (1e2, 5e3), "arccsch": (1e2, 5e3), "sech": (8.0, 20.0), "coth": (8.0, 20.0), "softmax_focal_loss": (50.0, 300.0),
+}
+
+
+def gen_single(rng, fn, force_empty=False, k=0):
+    if fn == "setitem":
+        return gen_setitem(rng)
     spec = OT.SPECS[fn]
+    stress = fn in STRESS and k % 6 == 5
     for _ in range(40):
         r = rng.random()
-        dtype = "float64" if r < 0.85 else ("float32" if (r < 0.97 or fn == "gru") else "float16")
+        dtype = "float64" if (r < 0.85 or fn == "gru") else ("float32" if r < 0.97 else "float16")
         b = B.Builder(rng, dtype=dtype)
         b.npint_args = True
         b.allow_empty = force_empty or rng.random() < 0.04
         shape = B.rand_shape(rng, 3, 4, 0 if b.allow_empty else 1)
+        want_nd = [0, 1, 2, 3, 3, 2][k % 6]
+        if len(shape) != want_nd and not b.allow_empty:
+            shape = tuple(rng.randint(1, 3 if want_nd == 3 else 4) for _ in range(want_nd))
         if spec.kind in ("matmul", "multi_matmul", "norm", "softmax", "glu", "cum", "join") and len(shape) == 0:
             shape = (rng.randint(1, 3),)
         if spec.kind == "glu":
@@ -97,6 +128,11 @@ def gen_single(rng, fn, force_empty=False):
             signed = False
         if fn == "power":
             lo, hi, signed = 0.5, 2.5, False
+        if stress:
+            lo, hi = STRESS[fn]
+            signed = fn not in ("log", "sqrt", "log1p", "reciprocal", "cbrt")
+            dtype = "float64"
+            b.dtype = "float64"
         n_leaves = 1 if spec.kind in ("u1", "m1", "m1p", "reduce", "cum", "norm", "glu", "softmax") else rng.randint(1, 2)
         for i in range(n_leaves):
             shp = shape if i == 0 or rng.random() < 0.4 else B.bcast_variants(rng, shape)
@@ -111,9 +147,12 @@ def gen_single(rng, fn, force_empty=False):
         else:
             n0 = len(b.prog)
             try:
+                OT.DOMAIN_CHECKS = not stress
                 out = _gen_for(b, fn)
             except (IndexError, ValueError, ZeroDivisionError):  # generator could not build this op on these (e.g. empty) operands
                 out = None
+            finally:
+                OT.DOMAIN_CHECKS = True
             if out is not None and not any(st.get("fn") == fn for st in b.prog[n0:]):
                 out = None
         if out is None or not b.meta[out]["nonconst"]:
@@ -154,8 +193,8 @@ def enumerate_cases(cfg, seed):
     multiples of 16 so that, with the default 16 shards, a single shard pays for the compilation."""
     def mk(fn, k):
         rng = random.Random(case_seed(seed, "C02:" + fn, k))
-        return gen_single(rng, fn, force_empty=(k % 12 == 11))
-    others = [(fn, k) for fn in sorted(OT.SPECS) if fn != "gru" for k in range(cfg["per_spec"])]
+        return gen_single(rng, fn, force_empty=(k % 12 == 11), k=k)
+    others = [(fn, k) for fn in sorted(OT.SPECS) + ["setitem"] if fn != "gru" for k in range(cfg["per_spec"] * (12 if fn == "setitem" else 1))]
     grus = [("gru", k) for k in range(max(6, cfg["per_spec"] // 4))]
     i = 0
     while others or grus:
